@@ -12,7 +12,7 @@ import impl as IMPL
 import p_session as PS
 from codec import M, sansldap
 
-LEAN_TARGETS = ["Verif.Props.C11"]
+LEAN_TARGETS = ["Verif.Props.C11", "Verif.Props.C11More"]
 LEVEL = "proof"
 ASSUMPTIONS = [
     "admissible histories: each application only makes calls its session accepts and answers a request with responses of the matching kind "
